@@ -35,11 +35,17 @@ SPEC = {
                    "the real validate and to the real handleUpload (FS bucket): verdict class, HTTP status, stored; "
                    "(b) 2-4 single-item perturbations of that report (added counter / stack / cross-named item, one "
                    "identity field changed, invalid Week, invalid or unusual semver Config, X in {0,-0,denormal}, or "
-                   "none) are judged the same way; (c) the real viewer through the functions its index page is built from: files(dir, cfg) on the "
+                   "none) are judged the same way and the uploader's report is POSTed once more, verbatim, after them (all "
+                   "requests of a run go to one server process; the oracle judges the HANDLER's status); (c) the real viewer through the functions its index page is built from: files(dir, cfg) on the "
                    "directory holding the count files (summary text, ActiveMeta, Active flags of every file) and "
                    "reports(dir, cfg) on the local (unfiltered) and on the upload report the real uploader wrote "
                    "(per-program summary, judged by viewer_report_check: set verdict, no approved item called "
-                   "excluded, every dropped counter listed), and the real uploader at X = 0 on the WHOLE week. distinct = distinct case "
+                   "excluded, every dropped counter listed), and the real uploader at X = 0 on the WHOLE week. 4% of the cases (kind pages): ONE viewer "
+                   "Server (handleIndex over the embedded content, configuration fetched by the real "
+                   "configstore.Download from a file:// proxy with two versions differing in what they approve) "
+                   "answers 2-3 page requests /?config=<v1.0.0|v1.1.0|latest||empty>, the store unreachable for "
+                   "some; the per-file summaries are read from the HTML and judged under the configuration that "
+                   "request names. distinct = distinct case "
                    "lines; every case compares all implementation verdicts with the model and evaluates "
                    "server_check / viewer_check on the implementation's verdicts; none is trivial"),
     ],
@@ -56,7 +62,9 @@ SPEC = {
                   "does not depend on the other programs of the report or their order; builds are told apart by all "
                   "five identity fields (Program path in full); the report view (newTelemetryReport, after fix a1becfe) lists "
                   "exactly the displayed names of the dropped counters and dropped stacks and never calls an approved "
-                  "one excluded; its oracle accepts the model. The models are tied to the code by differential execution against "
+                  "one excluded; its oracle accepts the model; "
+                  "sequences: the answer of the upload handler to a request and the viewer page for a configuration "
+                  "version in any sequence of requests are those of that request alone. The models are tied to the code by differential execution against "
                   "the real createReport, validate, handleUpload, summary and newCounterFile.",
     "level_note": "Trusted: Coq kernel+VM, extraction, OCaml glue, Go harness/generators, the two helper processes "
                   "(injected exporter in package view; init hook in package main of telemetrygodev). "
@@ -71,7 +79,8 @@ SPEC = {
         "time.Parse(\"2006-01-02\") behaves as Lib/Calendar.parse_date (sampled)",
         "rates are non-negative non-NaN float64 values; encoding/json round-trips reports and configurations",
         "html.EscapeString / html/template only escape text: the viewer's summary is classified by its fixed phrases",
+        "sequences: the upload handler decodes each body into a fresh report and the viewer resolves the configuration version on each request (code facts sampled by the suite); go mod download against the file:// proxy returns the stored config.json of the requested / newest version",
     ],
     "trusted_base": [],
-    "own_objects": ["theories/Props/C11.vo", "theories/Proofs/ApprovalReports.vo", "theories/Proofs/ReportPrograms.vo", "theories/Proofs/ApprovalOracle.vo", "theories/Proofs/ApprovalFacts.vo", "theories/Model/Approval.vo"],
+    "own_objects": ["theories/Props/C11.vo", "theories/Proofs/ApprovalSequences.vo", "theories/Proofs/ApprovalReports.vo", "theories/Proofs/ReportPrograms.vo", "theories/Proofs/ApprovalOracle.vo", "theories/Proofs/ApprovalFacts.vo", "theories/Model/Approval.vo"],
 }
